@@ -1,0 +1,22 @@
+//! Verification hooks. Compiled only with the cargo feature `verif_hooks` (off by default).
+//! A process-global event sink that an external monitor can install; library code emits
+//! small numeric events at a few observation points. With no sink installed `emit` is a no-op.
+
+use std::sync::RwLock;
+
+/// Receiver of hook events: (event name, numeric payload).
+pub type Sink = Box<dyn Fn(&'static str, &[f64]) + Send + Sync>;
+
+static SINK: RwLock<Option<Sink>> = RwLock::new(None);
+
+/// Install (or remove, with `None`) the global event sink.
+pub fn set_sink(sink: Option<Sink>) {
+    *SINK.write().unwrap_or_else(|e| e.into_inner()) = sink;
+}
+
+/// Deliver the event to the installed sink, if any.
+pub fn emit(event: &'static str, data: &[f64]) {
+    if let Some(sink) = SINK.read().unwrap_or_else(|e| e.into_inner()).as_ref() {
+        sink(event, data);
+    }
+}
